@@ -30,6 +30,6 @@ def run(ctx):
                         "multi-round sequences, NextPackageUntil with scripted callback outcomes (cont/stop/io.EOF/error/nil callback)", env=env)
     ctx.extra.update({"u2_runs": s0["runs"], "round_runs": s1["runs"], "until_runs": s2["runs"]})
     ctx.assumptions += [
-        "judged responses only: at least one package reaches the consumer; a DONE-family package with status 0 occurs only as the last package of a response (mid-response DONEPROC/DONEINPROC with status 0: open question in DESIGN.md §13)",
+        "a DONE-family package with status 0 occurs only as the last package of a response (mid-response DONEPROC/DONEINPROC with status 0: open question in DESIGN.md §13); responses that deliver nothing (only informational messages / environment changes) and the empty response are included from the second round on",
         "the return value of NextPackageUntil with a nil callback (io.EOF or nil) is not judged, only that the response is consumed"]
     return ctx.finish(rule="U1 exhaustive small scope incl. 2 rounds; U2/U3 rounds on one channel with reference values from a fresh single-packet run")
